@@ -9,7 +9,7 @@
 From Coq Require Import NArith ZArith List Bool.
 From ST Require Import Base.Outcome Base.Units Utf.Spec Utf.Tokens Utf.Model Utf.ProofsC01 Utf.ProofsC03 Utf.ApiCoverage.
 From ST Require Utf.LeafBridge Gen.Leaf.
-From ST Require Utf.LoopBridge Utf.LoopBridgeMeasure.
+From ST Require Utf.LoopBridge Utf.LoopBridgeMeasure Utf.LoopBridgeConvert32 Utf.LoopBridgeConvert16To8.
 Import ListNotations.
 Local Open Scope N_scope.
 
@@ -149,3 +149,14 @@ Proof.
                    (ST.Utf.LoopBridgeMeasure.utf32_measure_from_utf8_matches_source l fuel A Hb Hf))).
 Qed.
 Print Assumptions decoding_measure_loops_match_source.
+
+(* UTF-16 -> UTF-8: the one pass that contains an ST_ASSERT.  The translated function ends with ext_abort exactly where the
+   model stops with Abort AbConvRange (code_of / model_of: None); everywhere else it returns the model's conversion_error_t
+   and stores the bytes the model pushes.  With this one all twelve conversion passes are tied by translation. *)
+Theorem utf16_to_utf8_pass_matches_source : forall l m fuel, all_lt 65536 l = true -> (length l < fuel)%nat ->
+  exists oe ws,
+    ST.Gen.Leaf.src_utf8_convert_from_utf16 fuel (ST.Utf.LoopBridge.arr32 l) (Z.of_nat (length l)) (ST.Utf.LoopBridgeConvert32.mode_code m)
+      = Some (ST.Utf.LoopBridgeConvert16To8.code_of oe, ws) /\
+    forall d : dst, (length ws <= fst d)%nat -> utf8_convert_from_utf16 d l m = ST.Utf.LoopBridgeConvert16To8.model_of oe d ws.
+Proof. exact ST.Utf.LoopBridgeConvert16To8.utf8_convert_from_utf16_matches_source. Qed.
+Print Assumptions utf16_to_utf8_pass_matches_source.
